@@ -120,6 +120,9 @@ def check_storage(db, rep, units=None, floors=True):
     return tls_objs
 
 
+EXEMPT = set()  # lock-guarded mutable fields and synchronisation members: judged by the lock rule instead
+
+
 def root_is_this(e):
     """is the object designated by expression e reached from `this` (member access, subscripts, dereferences, get())?"""
     e = strip(e)
@@ -130,6 +133,10 @@ def root_is_this(e):
         if k == 'CXXThisExpr':
             return True
         if k == 'MemberExpr':
+            if e.get('member') in EXEMPT:
+                b0 = strip(e['c'][0]) if e.get('c') else None
+                if b0 is None or b0.get('k') == 'CXXThisExpr':
+                    return False
             e = strip(e['c'][0]) if e.get('c') else None
         elif k in ('ArraySubscriptExpr',):
             e = strip(e['c'][0])
@@ -145,17 +152,110 @@ def root_is_this(e):
     return False
 
 
-def check_const_queries(db, rep, unit_name='SQuIDS', floors=True):
+SYNC_TYPES = ('std::mutex', 'std::recursive_mutex', 'std::once_flag', 'std::atomic<', 'std::atomic_flag', 'std::shared_mutex', 'std::timed_mutex')
+LOCK_TYPES = ('std::lock_guard<', 'std::unique_lock<', 'std::scoped_lock<')
+
+
+def children(n):
+    for k in ('decls', 'dims', 'inits', 'params'):
+        for v in n.get(k) or []:
+            yield v
+    for k in ('range', 'var', 'lhs', 'sub', 'body', 'inc', 'else', 'then', 'cond', 'init', 'condvar', 'size', 'fn'):
+        v = n.get(k)
+        if isinstance(v, dict):
+            yield v
+        elif isinstance(v, list):
+            for x in v:
+                yield x
+    for k in ('args', 'c'):
+        for v in n.get(k) or []:
+            yield v
+
+
+def unlocked_accesses(body, data_fields, sync_fields):
+    """member accesses to the given mutable data fields that are not dominated, in an enclosing block, by the
+    declaration of a scoped lock (lock_guard / unique_lock / scoped_lock) on one of the object's own mutexes"""
+    out = []
+
+    def is_lock_decl(st):
+        if not isinstance(st, dict) or st.get('k') != 'DeclStmt':
+            return False
+        for d in st.get('decls') or []:
+            if d.get('k') == 'VarDecl' and elem_type(d.get('t', '')).startswith(LOCK_TYPES) and d.get('init') is not None:
+                if any(x.get('k') == 'MemberExpr' and x.get('member') in sync_fields for x in walk(d['init'])):
+                    return True
+        return False
+
+    def visit(n, locked):
+        if isinstance(n, list):
+            for x in n:
+                visit(x, locked)
+            return
+        if not isinstance(n, dict):
+            return
+        if n.get('k') == 'CompoundStmt':
+            l = locked
+            for st in n.get('c') or []:
+                visit(st, l)
+                if is_lock_decl(st):
+                    l = True
+            return
+        if n.get('k') == 'MemberExpr' and n.get('member') in data_fields and not locked:
+            base = strip(n['c'][0]) if n.get('c') else None
+            if base is None or base.get('k') == 'CXXThisExpr':
+                out.append(n)
+        if n.get('k') == 'LambdaExpr':
+            locked = False  # a closure may run after the lock is gone
+        for ch in children(n):
+            visit(ch, locked)
+
+    visit(body, False)
+    return out
+
+
+def check_const_queries(db, rep, unit_name='SQuIDS', floors=True, record='squids::SQuIDS'):
     unit = db.unit(unit_name)
     n = 0
-    recs = [r for r in unit.records if r['name'] == 'squids::SQuIDS']
+    recs = [r for r in unit.records if r['name'] == record]
     if not recs:
-        raise AnalysisBroken('record squids::SQuIDS not found')
-    mut = [f['name'] for f in recs[0]['fields'] if f.get('mutable')]
-    if mut:
-        rep.fail('E.const.write', 'SQuIDS/mutable', unit.loc(recs[0]), 'no mutable field in the solver', 'mutable: %s' % mut, 'squids::SQuIDS')
+        raise AnalysisBroken('record %s not found' % record)
+    mut = [f for f in recs[0]['fields'] if f.get('mutable')]
+    sync_fields = set(f['name'] for f in mut if elem_type(f['t']).startswith(SYNC_TYPES))
+    data_fields = set(f['name'] for f in mut if f['name'] not in sync_fields)
+    guarded_mutable = bool(data_fields) and any(elem_type(f['t']).startswith(('std::mutex', 'std::recursive_mutex', 'std::shared_mutex', 'std::timed_mutex'))
+                                                for f in mut)
+    if data_fields and not guarded_mutable:
+        rep.fail('E.const.write', 'SQuIDS/mutable', unit.loc(recs[0]), 'no mutable data field in the solver (unless every access is made under a scoped lock on a mutex of the object)',
+                 'mutable: %s, and the object has no mutex' % sorted(data_fields), record)
+    elif data_fields:
+        # mutable data guarded by the object's own mutex: every access in every const member function must be
+        # dominated by a scoped lock, and no const member function may hand out a pointer or reference to it
+        for f in unit.functions:
+            if f.get('record') != record or not f.get('const'):
+                continue
+            bad = unlocked_accesses(f['body'], data_fields, sync_fields)
+            ret = f.get('ret', '')
+            esc = None
+            if ret.endswith('*') or ret.endswith('&'):
+                for node in walk(f.get('body')):
+                    if node.get('k') == 'ReturnStmt' and any(x.get('k') == 'MemberExpr' and x.get('member') in data_fields for x in walk(node)):
+                        esc = node
+            if bad:
+                rep.fail('E.const.write', '%s/unlocked:%s' % (sig(f), bad[0].get('member')), unit.loc(bad[0]),
+                         'mutable data of the solver is touched by const member functions only under a scoped lock on the object\'s mutex',
+                         'access to mutable field %s without a dominating lock_guard/unique_lock/scoped_lock' % bad[0].get('member'), sig(f))
+            elif esc is not None:
+                rep.fail('E.const.write', '%s/escape' % sig(f), unit.loc(esc), 'lock-protected mutable data does not leave the locked region by pointer or reference',
+                         'returns %s derived from a mutable field' % ret, sig(f))
+            else:
+                rep.ok('E.const.write')
+        rep.notes.append('mutable fields %s accepted: every access in const member functions is dominated by a scoped lock' % sorted(data_fields))
+    EXEMPT.clear()
+    EXEMPT.update(sync_fields)
+    if guarded_mutable:
+        EXEMPT.update(data_fields)
     for f in unit.functions:
-        if f.get('record') != 'squids::SQuIDS' or not f.get('const'):
+        if f.get('record') != record or not f.get('const'):
             continue
         # every const member function is held to the rule (helpers called by the queries included);
         # the named queries are the floor
